@@ -104,28 +104,34 @@ structure RowClass where
 def createClass (schema : List String) (tuplesOnly : Bool) : RowClass := ⟨schema, tuplesOnly⟩
 
 inductive RowArg (α : Type) where
-  | dict (d : PyDict α)   -- a dictionary (`d.exact`: a `dict` itself, not an instance of OrderedDict, defaultdict, …) with keys of any kind
+  | dict (d : PyDict α)   -- a dictionary or another Mapping (`d.exact` / `d.isDict` / `d.mutable`) with keys of any kind
   | tuple (t : List α)
 
-/-- `cls(data)` (`row.py:77-96`) with the test `guard` in front of the helper and the statements `prepare` between
-that test and the helper call.  `none`: the row is not an extraction -- a dictionary given to a tuples-only class
-(outside that class's contract: the real object holds the dictionary's keys), a dictionary the guard does not admit
-(the keys again) or one that reaches the helper while not an exact `dict` (`TypeError`: the compiled helper takes exact
-dictionaries only).  The helper finds what a lookup of the field name -- an exact `str` -- finds (`helperView`). -/
-def rowNewOf (guard : PyDict α → Bool) (prepare : PyDict α → PyDict α) (null : α) (cls : RowClass) :
-    RowArg α → Option (List α)
+/-- `cls(data)` (`row.py:77-100`) with the statements `pre` in front of the dictionary test, the test `guard` and the
+statements `prepare` between that test and the helper call.  `none`: the row is not an extraction -- a dictionary given to
+a tuples-only class (outside that class's contract: the real object holds the dictionary's keys), an argument the guard
+does not admit (a `Mapping` that is no dict and was not copied into one: the keys again) or one that reaches the helper
+while not an exact `dict` (`TypeError`: the compiled helper takes exact dictionaries only).  The helper finds what a
+lookup of the field name -- an exact `str` -- finds (`helperView`). -/
+def rowNewOf (pre : PyDict α → PyDict α) (guard : PyDict α → Bool) (prepare : PyDict α → PyDict α) (null : α)
+    (cls : RowClass) : RowArg α → Option (List α)
   | .tuple t => some t
   | .dict d =>
     if cls.tuplesOnly then none
-    else if guard d then
-      let handed := prepare d
-      if handed.exact then some (DictRow.extract null cls.fields (helperView handed.items)) else none
-    else none
+    else
+      let d0 := pre d
+      if guard d0 then
+        let handed := prepare d0
+        if handed.exact then some (DictRow.extract null cls.fields (helperView handed.items)) else none
+      else none
 
-/-- `cls(data)` with the guard and the statements of the source as it is now (`Gen.DictGlue`, regenerated from the
+/-- `cls(data)` with the statements and the guard of the source as it is now (`Gen.DictGlue`, regenerated from the
 working tree on every run). -/
 def rowNew (null : α) (cls : RowClass) (arg : RowArg α) : Option (List α) :=
-  rowNewOf Gen.DictGlue.rowGuard Gen.DictGlue.rowPrepare null cls arg
+  rowNewOf Gen.DictGlue.rowPre Gen.DictGlue.rowGuard Gen.DictGlue.rowPrepare null cls arg
+
+/-- `if not isinstance(data, (dict, tuple, list)) and isinstance(data, Mapping): data = dict(data)` -/
+def mappingStep (d : PyDict α) : PyDict α := if !d.isDict then d.copy else d
 
 /-- The step `if not all(type(key) is str for key in data): data = {str(key): value for key, value in data.items()}`:
 a record with a key that is not text is re-keyed by the text of its keys. -/
